@@ -32,15 +32,20 @@ Definition decode_sig (j : json) : option bytes :=
   | _ => None
   end.
 
-Fixpoint decode_inner (m : list (bytes * json)) : option (list (bytes * bytes)) :=
+(* decoding every member value of an object, failing when one fails (what json.Unmarshal does
+   for a Go map with a typed element) *)
+Fixpoint traverse {A B} (f : A -> option B) (m : list (bytes * A)) : option (list (bytes * B)) :=
   match m with
   | [] => Some []
   | (k, v) :: m' =>
-      match decode_sig v, decode_inner m' with
-      | Some s, Some r => Some ((k, s) :: r)
+      match f v, traverse f m' with
+      | Some b, Some r => Some ((k, b) :: r)
       | _, _ => None
       end
   end.
+
+Definition decode_inner (m : list (bytes * json)) : option (list (bytes * bytes)) :=
+  traverse decode_sig m.
 
 Definition decode_entity (j : json) : option (option (list (bytes * bytes))) :=
   match j with
@@ -49,15 +54,7 @@ Definition decode_entity (j : json) : option (option (list (bytes * bytes))) :=
   | _ => None
   end.
 
-Fixpoint decode_outer (m : list (bytes * json)) : option sigmap :=
-  match m with
-  | [] => Some []
-  | (k, v) :: m' =>
-      match decode_entity v, decode_outer m' with
-      | Some e, Some r => Some ((k, e) :: r)
-      | _, _ => None
-      end
-  end.
+Definition decode_outer (m : list (bytes * json)) : option sigmap := traverse decode_entity m.
 
 (* the value of the signatures member; null gives the empty (nil) map *)
 Definition decode_sigs (j : json) : option sigmap :=
@@ -76,11 +73,15 @@ Definition encode_entity (e : option (list (bytes * bytes))) : json :=
 Definition encode_sigs (sm : sigmap) : json :=
   JObj (map (fun ne => (fst ne, encode_entity (snd ne))) sm).
 
+(* Go map assignment m[k] = v: any earlier binding of k is gone, the others stay *)
+Definition assoc_put {A} (k : bytes) (v : A) (m : list (bytes * A)) : list (bytes * A) :=
+  filter (fun kv => negb (bytes_eqb k (fst kv))) m ++ [(k, v)].
+
 (* preserve.Signatures[name][kid] = signature *)
 Definition merge_sig (name kid s : bytes) (sm : sigmap) : sigmap :=
   match assoc_last name sm with
-  | Some (Some inner) => assoc_set name (Some (assoc_set kid s inner)) sm
-  | _ => assoc_set name (Some [(kid, s)]) sm
+  | Some (Some inner) => assoc_put name (Some (assoc_put kid s inner)) sm
+  | _ => assoc_put name (Some [(kid, s)]) sm
   end.
 
 Definition lookup_sig (name kid : bytes) (sm : sigmap) : option bytes :=
@@ -178,15 +179,8 @@ Definition entity_keys (j : json) : option (list bytes) :=
   | _ => None
   end.
 
-Fixpoint keyid_outer (m : list (bytes * json)) : option (list (bytes * list bytes)) :=
-  match m with
-  | [] => Some []
-  | (k, v) :: m' =>
-      match entity_keys v, keyid_outer m' with
-      | Some e, Some r => Some ((k, e) :: r)
-      | _, _ => None
-      end
-  end.
+Definition keyid_outer (m : list (bytes * json)) : option (list (bytes * list bytes)) :=
+  traverse entity_keys m.
 
 Definition list_key_ids_value (name : bytes) (v : json) : option (list bytes) :=
   match top_members v with
